@@ -123,6 +123,130 @@ Qed.
 Theorem fs_invariant : forall s o, Inv s -> Inv (step s o) /\ Inv (step_fault s o) /\ Inv (reboot s).
 Proof. intros s o H. split; [apply step_inv; exact H|split; [apply step_fault_inv; exact H|exact H]]. Qed.
 
+(* ---------- the WEAKER invariant: only the names in T (the temporaries) must not share their inode ----------
+   `Inv` forbids every hard link in the directory.  What the write-then-rename protocols need is less: the TEMPORARY they
+   truncate and write must not be a second name of some other entry's inode (else writing it changes that entry).  Hard
+   links among the other entries are harmless and allowed by InvT.  It is kept by every operation whose renames do not move
+   an entry from outside T to a name in T (the services rename their temporary -- in T -- to the final name). *)
+Definition winvT (T : str -> Prop) (n : str -> option ent) (nx : nat) : Prop :=
+  (forall p i, n p = Some (F i) -> (i < nx)%nat) /\
+  (forall p q i, T p -> n p = Some (F i) -> n q = Some (F i) -> p = q).
+Definition InvT (T : str -> Prop) (s : st) : Prop := winvT T (names s) (next s).
+
+Lemma Inv_InvT : forall T s, Inv s -> InvT T s.
+Proof. intros T s [H1 H2]. split; [exact H1|]. intros p q i _ Hp Hq. exact (H2 p q i Hp Hq). Qed.
+Lemma InvT_wf : forall T s, InvT T s -> wf_st s.
+Proof. intros T s [H _]. exact H. Qed.
+Lemma InvT_unshared : forall (T : str -> Prop) s tmp, T tmp -> InvT T s -> unshared s tmp.
+Proof. intros T s tmp Ht [_ H] q i Hq Hn Hc. apply Hq. symmetry. exact (H tmp q i Ht Hn Hc). Qed.
+
+Lemma winvT_set : forall T n nx p v, (forall i, v <> Some (F i)) -> winvT T n nx -> winvT T (upd n p v) nx.
+Proof.
+  intros T n nx p v Hv [H1 H2]. split.
+  - intros q i Hq. destruct (upd_cases _ n p v q) as [[-> E]|[_ E]]; rewrite E in Hq; [exfalso; exact (Hv i Hq)|eapply H1; eauto].
+  - intros a b i Ta Ha Hb.
+    destruct (upd_cases _ n p v a) as [[-> E]|[_ E]]; rewrite E in Ha; [exfalso; exact (Hv i Ha)|].
+    destruct (upd_cases _ n p v b) as [[-> E']|[_ E']]; rewrite E' in Hb; [exfalso; exact (Hv i Hb)|]. eapply H2; eauto.
+Qed.
+
+Lemma winvT_create : forall T n nx p, winvT T n nx -> winvT T (upd n p (Some (F nx))) (S nx).
+Proof.
+  intros T n nx p [H1 H2]. split.
+  - intros q i Hq. destruct (upd_cases _ n p (Some (F nx)) q) as [[-> E]|[_ E]]; rewrite E in Hq.
+    + injection Hq as <-. lia.
+    + apply H1 in Hq. lia.
+  - intros a b i Ta Ha Hb.
+    destruct (upd_cases _ n p (Some (F nx)) a) as [[-> E]|[_ E]]; rewrite E in Ha;
+    destruct (upd_cases _ n p (Some (F nx)) b) as [[-> E']|[_ E']]; rewrite E' in Hb.
+    + reflexivity.
+    + injection Ha as <-. apply H1 in Hb. lia.
+    + injection Hb as <-. apply H1 in Ha. lia.
+    + eapply H2; eauto.
+Qed.
+
+Lemma winvT_move : forall (T : str -> Prop) n nx a b e, (T b -> T a) ->
+  winvT T n nx -> n a = Some e -> a <> b -> winvT T (upd (upd n b (Some e)) a None) nx.
+Proof.
+  intros T n nx a b e Tba [H1 H2] Hae Hab. split.
+  - intros q i Hq. destruct (upd_cases _ (upd n b (Some e)) a None q) as [[-> E]|[_ E]]; rewrite E in Hq; [discriminate|].
+    destruct (upd_cases _ n b (Some e) q) as [[-> E']|[_ E']]; rewrite E' in Hq.
+    + injection Hq as ->. eapply H1; eauto.
+    + eapply H1; eauto.
+  - intros x y i Tx Hx Hy.
+    destruct (upd_cases _ (upd n b (Some e)) a None x) as [[-> E]|[Hxa E]]; rewrite E in Hx; [discriminate|].
+    destruct (upd_cases _ (upd n b (Some e)) a None y) as [[-> E2]|[Hya E2]]; rewrite E2 in Hy; [discriminate|].
+    destruct (upd_cases _ n b (Some e) x) as [[-> E3]|[_ E3]]; rewrite E3 in Hx;
+    destruct (upd_cases _ n b (Some e) y) as [[-> E4]|[_ E4]]; rewrite E4 in Hy.
+    + reflexivity.
+    + injection Hx as ->. exfalso. apply Hya. symmetry. exact (H2 a y i (Tba Tx) Hae Hy).
+    + injection Hy as ->. exfalso. apply Hxa. exact (H2 x a i Tx Hx Hae).
+    + eapply H2; eauto.
+Qed.
+
+(* the renames an operation performs: (source, destination) *)
+Definition renames (o : op) : list (str * str) :=
+  match o with Rename a b | RenameElseUnlink a b _ | RenameRetry a b => [(a, b)] | _ => [] end.
+Definition keepsT (T : str -> Prop) (o : op) : Prop := forall a b, In (a, b) (renames o) -> T b -> T a.
+
+Lemma step_rename_invT : forall (T : str -> Prop) s a b, (T b -> T a) -> InvT T s -> InvT T (step_rename s a b).
+Proof.
+  intros T s a b Tba H. unfold step_rename. destruct (names s a) as [e|] eqn:Ea; [|exact H].
+  destruct (names s b) as [[i|t|]|] eqn:Eb; try exact H;
+    (destruct (str_eqb a b) eqn:Eab; [exact H|]; unfold InvT; cbn [names next];
+     apply winvT_move; [exact Tba|exact H|exact Ea|apply str_eqb_false_neq; exact Eab]).
+Qed.
+
+Lemma unlink_quiet_invT : forall T s p, InvT T s -> InvT T (unlink_quiet s p).
+Proof.
+  intros T s p H. unfold unlink_quiet. destruct (names s p) as [[i|t|]|]; try exact H;
+    unfold InvT; cbn [names next]; apply winvT_set; [discriminate|exact H|discriminate|exact H].
+Qed.
+
+Lemma step_invT : forall T s o, keepsT T o -> InvT T s -> InvT T (step s o).
+Proof.
+  intros T s o K H. unfold step. destruct (failed s); [exact H|].
+  destruct o; unfold keepsT in K; cbn [renames] in K.
+  - destruct (names s p) as [[i|t|]|]; try exact H. unfold InvT. cbn [names next]. apply winvT_create. exact H.
+  - destruct (handle s) as [[i pend]|]; exact H.
+  - destruct (handle s) as [[i pend]|]; exact H.
+  - apply step_rename_invT; [apply K; left; reflexivity|exact H].
+  - destruct (failed (step_rename s a b)); [|apply step_rename_invT; [apply K; left; reflexivity|exact H]].
+    destruct (names s c) as [[i|t|]|]; try exact H; unfold InvT; cbn [names next]; apply winvT_set; try discriminate; exact H.
+  - destruct (failed (step_rename s a b)); [|apply step_rename_invT; [apply K; left; reflexivity|exact H]].
+    apply step_rename_invT; [apply K; left; reflexivity|]. apply unlink_quiet_invT. exact H.
+  - destruct (names s p) as [[i|t|]|]; exact H.
+  - destruct (names s p) as [e|]; [|exact H]. unfold InvT. cbn [names next]. apply winvT_set; [discriminate|exact H].
+  - destruct (names s p) as [[i|t|]|]; try exact H. unfold InvT. cbn [names next]. apply winvT_set; [discriminate|exact H].
+  - destruct (exists_at exists_fuel s p); [|exact H]. unfold InvT. cbn [names next]. apply winvT_set; [discriminate|exact H].
+Qed.
+
+Lemma run_invT : forall T ops s, (forall o, In o ops -> keepsT T o) -> InvT T s -> InvT T (run s ops).
+Proof.
+  induction ops as [|o ops IH]; intros s K H; [exact H|]. rewrite run_cons. apply IH.
+  - intros o' Ho'. apply K. right. exact Ho'.
+  - apply step_invT; [apply K; left; reflexivity|exact H].
+Qed.
+
+Lemma step_fault_invT : forall T s o, InvT T s -> InvT T (step_fault s o).
+Proof.
+  intros T s o H. unfold step_fault. destruct (failed s); [exact H|].
+  destruct o; try exact H; apply (unlink_quiet_invT T s _ H).
+Qed.
+
+Lemma plant_invT : forall T s p t, InvT T s -> InvT T (plant s p t).
+Proof.
+  intros T s p t H. unfold plant. destruct (names s p) as [[i|t'|]|]; try exact H;
+    unfold InvT; cbn [names next]; apply winvT_set; try discriminate; exact H.
+Qed.
+
+(* kept by every operation that does not rename INTO T from outside T, performed or failing, and by a restart *)
+Theorem fs_invariant_T : forall T s o, InvT T s ->
+  (keepsT T o -> InvT T (step s o)) /\ InvT T (step_fault s o) /\ InvT T (reboot s).
+Proof. intros T s o H. split; [intros K; apply step_invT; assumption|split; [apply step_fault_invT; exact H|exact H]]. Qed.
+
+(* the temporaries of the upload service: every name that ends in the temporary extension *)
+Definition is_utmp (p : str) : Prop := exists f, p = f ++ putfile_tmp_ext.
+
 (* ---------- directories stay where they are ---------- *)
 Definition dn (n n' : str -> option ent) : Prop := forall p, n' p = Some D <-> n p = Some D.
 Definition dsame (s s' : st) : Prop := dn (names s) (names s').
@@ -317,9 +441,33 @@ Qed.
 Lemma look_reboot : forall s q, look (reboot s) q = look s q.
 Proof. reflexivity. Qed.
 
-Lemma usession : forall s final blocks oc k,
-  Inv s -> failed s = false -> followed s = false ->
-  Inv (run s (firstn k (upload_ops final blocks oc))) /\
+(* every operation of an upload is one of these seven *)
+Lemma upload_ops_forall : forall (P : op -> Prop) final blocks oc,
+  P (UnlinkIfLink (final ++ putfile_tmp_ext)) -> P (Open (final ++ putfile_tmp_ext)) ->
+  (forall b, P (Write (final ++ putfile_tmp_ext) b)) -> P (Close (final ++ putfile_tmp_ext)) ->
+  P (RenameElseUnlink (final ++ putfile_tmp_ext) final (final ++ putfile_tmp_ext)) -> P (Chmod final) ->
+  P (Unlink (final ++ putfile_tmp_ext)) ->
+  forall o, In o (upload_ops final blocks oc) -> P o.
+Proof.
+  intros P final blocks oc P1 P2 P3 P4 P5 P6 P7 o Ho.
+  assert (G : forall tl, (forall o', In o' tl -> P o') ->
+              In o (UnlinkIfLink (final ++ putfile_tmp_ext) :: Open (final ++ putfile_tmp_ext) ::
+                    map (Write (final ++ putfile_tmp_ext)) blocks ++ tl) -> P o).
+  { intros tl Htl Hin. destruct Hin as [<-|[<-|Hin]]; [exact P1|exact P2|].
+    apply in_app_or in Hin. destruct Hin as [Hin|Hin].
+    - apply in_map_iff in Hin. destruct Hin as (b & <- & _). apply P3.
+    - apply Htl. exact Hin. }
+  destruct oc.
+  - rewrite upload_ops_done in Ho. unfold core_ops in Ho. apply (G _) in Ho; [exact Ho|].
+    intros o' Ho'. cbn in Ho'. destruct Ho' as [<-|[<-|[<-|[]]]]; assumption.
+  - rewrite upload_ops_err in Ho. unfold err_ops in Ho. apply (G _) in Ho; [exact Ho|].
+    intros o' Ho'. cbn in Ho'. destruct Ho' as [<-|[<-|[]]]; assumption.
+  - rewrite upload_ops_badblock, upload_ops_err in Ho. unfold err_ops in Ho. apply (G _) in Ho; [exact Ho|].
+    intros o' Ho'. cbn in Ho'. destruct Ho' as [<-|[<-|[]]]; assumption.
+Qed.
+
+Lemma usession_gen : forall s final blocks oc k,
+  wf_st s -> unshared s (final ++ putfile_tmp_ext) -> failed s = false -> followed s = false ->
   dsame s (run s (firstn k (upload_ops final blocks oc))) /\
   followed (run s (firstn k (upload_ops final blocks oc))) = false /\
   (forall q, q <> final ++ putfile_tmp_ext -> q <> final ->
@@ -327,17 +475,15 @@ Lemma usession : forall s final blocks oc k,
   (look (run s (firstn k (upload_ops final blocks oc))) final = look s final \/
    (oc = Done /\ look (run s (firstn k (upload_ops final blocks oc))) final = VFile (concat blocks))).
 Proof.
-  intros s final blocks oc k HI Hf Hfl.
+  intros s final blocks oc k Hwf Hun Hf Hfl.
   assert (Hcase : names s (final ++ putfile_tmp_ext) = Some D \/ names s (final ++ putfile_tmp_ext) <> Some D).
   { destruct (names s (final ++ putfile_tmp_ext)) as [[i0|t0|]|]; [right|right|left|right]; (reflexivity || discriminate). }
   destruct Hcase as [Etmp|Hnd].
   { destruct (upload_tmp_is_directory s final blocks oc k Hf Etmp) as [[R|R] _]; rewrite R;
-      (split; [exact HI|split; [apply dn_refl|split; [exact Hfl|split; [intros; reflexivity|left; reflexivity]]]]). }
-  split; [apply run_inv; exact HI|].
+      (split; [apply dn_refl|split; [exact Hfl|split; [intros; reflexivity|left; reflexivity]]]). }
   split.
   { apply run_dsame. intros o a Ho Ha. apply In_firstn in Ho.
     rewrite (upload_ops_movable final blocks oc o a Ho Ha). exact Hnd. }
-  pose proof (Inv_wf _ HI) as Hwf. pose proof (Inv_unshared _ (final ++ putfile_tmp_ext) HI) as Hun.
   assert (Hcl : clean s) by (split; assumption).
   assert (Hne : final <> final ++ putfile_tmp_ext) by (apply not_eq_sym, tmp_ext_neq).
   destruct oc.
@@ -361,6 +507,55 @@ Proof.
     split; [exact Hb|]. split; [intros q Hq _; apply Ha; exact Hq|]. left. apply Ha. exact Hne.
 Qed.
 
+Lemma usession : forall s final blocks oc k,
+  Inv s -> failed s = false -> followed s = false ->
+  Inv (run s (firstn k (upload_ops final blocks oc))) /\
+  dsame s (run s (firstn k (upload_ops final blocks oc))) /\
+  followed (run s (firstn k (upload_ops final blocks oc))) = false /\
+  (forall q, q <> final ++ putfile_tmp_ext -> q <> final ->
+     look (run s (firstn k (upload_ops final blocks oc))) q = look s q) /\
+  (look (run s (firstn k (upload_ops final blocks oc))) final = look s final \/
+   (oc = Done /\ look (run s (firstn k (upload_ops final blocks oc))) final = VFile (concat blocks))).
+Proof.
+  intros s final blocks oc k HI Hf Hfl. split; [apply run_inv; exact HI|].
+  exact (usession_gen s final blocks oc k (Inv_wf _ HI) (Inv_unshared _ _ HI) Hf Hfl).
+Qed.
+
+(* ---------- what the history theorems need of an invariant: Inv has it, and so has the weaker InvT is_utmp ---------- *)
+Definition good_inv (P : st -> Prop) : Prop :=
+  (forall s, P s -> wf_st s) /\
+  (forall s final, P s -> unshared s (final ++ putfile_tmp_ext)) /\
+  (forall s final blocks oc k, P s -> P (reboot (run s (firstn k (upload_ops final blocks oc))))) /\
+  (forall s p t, P s -> P (plant s p t)).
+
+Lemma good_inv_Inv : good_inv Inv.
+Proof.
+  split; [exact Inv_wf|]. split; [intros s final H; apply Inv_unshared; exact H|].
+  split; [intros s final blocks oc k H; exact (run_inv _ _ H)|exact plant_inv].
+Qed.
+
+Lemma upload_ops_keepsT : forall final blocks oc o, In o (upload_ops final blocks oc) -> keepsT is_utmp o.
+Proof.
+  intros final blocks oc.
+  apply (upload_ops_forall (keepsT is_utmp) final blocks oc).
+  - intros a b H. destruct H.
+  - intros a b H. destruct H.
+  - intros d a b H. destruct H.
+  - intros a b H. destruct H.
+  - intros a b [H|[]] _. injection H as <- _. exists final. reflexivity.
+  - intros a b H. destruct H.
+  - intros a b H. destruct H.
+Qed.
+
+Lemma good_inv_InvT : good_inv (InvT is_utmp).
+Proof.
+  split; [exact (InvT_wf is_utmp)|].
+  split; [intros s final H; apply (InvT_unshared is_utmp); [exists final; reflexivity|exact H]|].
+  split; [|exact (plant_invT is_utmp)].
+  intros s final blocks oc k H. change (InvT is_utmp (run s (firstn k (upload_ops final blocks oc)))).
+  apply run_invT; [|exact H]. intros o Ho. apply In_firstn in Ho. exact (upload_ops_keepsT final blocks oc o Ho).
+Qed.
+
 Lemma utmps_app : forall a b, utmps (a ++ b) = utmps a ++ utmps b.
 Proof. intros. unfold utmps. apply flat_map_app. Qed.
 
@@ -376,20 +571,20 @@ Qed.
    restarts on the leftover directory and symlinks planted between incarnations -- nothing ever goes through a
    symlink, directories stay, and every name that is not the temporary of one of the uploads shows its initial entry,
    a planted link, or the complete content of an upload sent under that name *)
-Theorem uhistory_safe : forall s0 es,
-  Inv s0 -> failed s0 = false -> followed s0 = false ->
-  Inv (uhistory s0 es) /\ failed (uhistory s0 es) = false /\ followed (uhistory s0 es) = false /\
+Theorem uhistory_safe_gen : forall P, good_inv P -> forall s0 es,
+  P s0 -> failed s0 = false -> followed s0 = false ->
+  P (uhistory s0 es) /\ failed (uhistory s0 es) = false /\ followed (uhistory s0 es) = false /\
   dsame s0 (uhistory s0 es) /\
   (forall q, ~ In q (utmps es) -> uallowed s0 es q (look (uhistory s0 es) q)).
 Proof.
-  intros s0 es HI Hf Hfl. induction es as [|e es IH] using rev_ind.
+  intros P (G1 & G2 & G3 & G4) s0 es HI Hf Hfl. induction es as [|e es IH] using rev_ind.
   - cbn. split; [exact HI|]. split; [exact Hf|]. split; [exact Hfl|]. split; [apply dn_refl|]. intros q _. left. reflexivity.
   - unfold uhistory in *. rewrite fold_left_app. cbn [fold_left].
     destruct IH as (I1 & I2 & I3 & I4 & I5).
     set (s1 := fold_left do_uevent es s0) in *.
     destruct e as [final blocks oc k|p t]; cbn [do_uevent].
-    + destruct (usession s1 final blocks oc k I1 I2 I3) as (J1 & J2 & J3 & J4 & J5).
-      split; [exact J1|]. split; [reflexivity|]. split; [exact J3|].
+    + destruct (usession_gen s1 final blocks oc k (G1 _ I1) (G2 _ final I1) I2 I3) as (J2 & J3 & J4 & J5).
+      split; [exact (G3 s1 final blocks oc k I1)|]. split; [reflexivity|]. split; [exact J3|].
       split; [exact (dn_trans _ _ _ I4 J2)|].
       intros q Hq. rewrite look_reboot. rewrite utmps_app in Hq.
       assert (Hq1 : ~ In q (utmps es)) by (intros X; apply Hq; apply in_or_app; left; exact X).
@@ -399,7 +594,7 @@ Proof.
         -- rewrite J5. apply uallowed_mono. apply I5. exact Hq1.
         -- rewrite J5. right. right. exists blocks, k. split; [apply in_or_app; right; left; reflexivity|reflexivity].
       * apply str_eqb_false_neq in Eq. rewrite (J4 q Hq2 Eq). apply uallowed_mono. apply I5. exact Hq1.
-    + split; [apply plant_inv; exact I1|].
+    + split; [apply G4; exact I1|].
       split; [unfold plant; destruct (names s1 p) as [[i|t'|]|]; exact I2|].
       split; [unfold plant; destruct (names s1 p) as [[i|t'|]|]; exact I3|].
       split; [exact (dn_trans _ _ _ I4 (plant_dsame s1 p t))|].
@@ -417,21 +612,125 @@ Proof.
         rewrite El. apply uallowed_mono. apply I5. exact Hq.
 Qed.
 
+Theorem uhistory_safe : forall s0 es,
+  Inv s0 -> failed s0 = false -> followed s0 = false ->
+  Inv (uhistory s0 es) /\ failed (uhistory s0 es) = false /\ followed (uhistory s0 es) = false /\
+  dsame s0 (uhistory s0 es) /\
+  (forall q, ~ In q (utmps es) -> uallowed s0 es q (look (uhistory s0 es) q)).
+Proof. exact (uhistory_safe_gen Inv good_inv_Inv). Qed.
+
+(* ONE event, from any state that satisfies the invariant: a name that is not THIS upload's temporary keeps its entry, or
+   is where the link was planted, or is the upload's final name and now shows the complete content.  The guard
+   `q is not the temporary of this upload` is exact: see upload_name_is_temporary_refuted. *)
+Theorem uevent_frame : forall P, good_inv P -> forall s e q,
+  P s -> failed s = false -> followed s = false -> ~ In q (utmps [e]) ->
+  look (do_uevent s e) q = look s q \/
+  (exists t, e = UPlant q t /\ look (do_uevent s e) q = VLink t) \/
+  (exists blocks k, e = UUpload q blocks Done k /\ look (do_uevent s e) q = VFile (concat blocks)).
+Proof.
+  intros P (G1 & G2 & _ & _) s e q HI Hf Hfl Hq. destruct e as [final blocks oc k|p t]; cbn [do_uevent].
+  - destruct (usession_gen s final blocks oc k (G1 _ HI) (G2 _ final HI) Hf Hfl) as (_ & _ & J4 & J5). rewrite look_reboot.
+    assert (Hq2 : q <> final ++ putfile_tmp_ext) by (intros ->; apply Hq; cbn; left; reflexivity).
+    destruct (str_eqb q final) eqn:Eq.
+    + apply str_eqb_eq in Eq. subst q. destruct J5 as [J5|[-> J5]]; [left; exact J5|].
+      right. right. exists blocks, k. split; [reflexivity|exact J5].
+    + apply str_eqb_false_neq in Eq. left. apply J4; assumption.
+  - destruct (str_eqb q p) eqn:Eq.
+    + apply str_eqb_eq in Eq. subst q. unfold plant. destruct (names s p) as [[i|t'|]|] eqn:E.
+      * right. left. exists t. split; [reflexivity|]. unfold look. cbn [names]. rewrite upd_same. reflexivity.
+      * right. left. exists t. split; [reflexivity|]. unfold look. cbn [names]. rewrite upd_same. reflexivity.
+      * left. reflexivity.
+      * right. left. exists t. split; [reflexivity|]. unfold look. cbn [names]. rewrite upd_same. reflexivity.
+    + apply str_eqb_false_neq in Eq. left. unfold plant. destruct (names s p) as [[i|t'|]|]; try reflexivity;
+        unfold look; cbn [names data]; rewrite upd_other by exact Eq; reflexivity.
+Qed.
+
+Lemma ufinals_app : forall a b, ufinals (a ++ b) = ufinals a ++ ufinals b.
+Proof. intros. unfold ufinals. apply flat_map_app. Qed.
+
+Lemma uhistory_snoc : forall s0 es e, uhistory s0 (es ++ [e]) = do_uevent (uhistory s0 es) e.
+Proof. intros. unfold uhistory. rewrite fold_left_app. reflexivity. Qed.
+
+(* ALL HISTORIES, at the FINAL names, under the exact guard `no final name is another upload's temporary`: each event of the
+   history leaves every final name of the history as it was, or plants a link there, or publishes the complete content of an
+   upload sent under that very name -- so a published file stays until something is sent (or planted) under its own name;
+   and at the end every final name shows its initial entry, a planted link or the complete content of one of its uploads *)
+Theorem uhistory_final_names : forall P, good_inv P -> forall s0 es1 e es2,
+  P s0 -> failed s0 = false -> followed s0 = false -> no_name_collision (es1 ++ e :: es2) ->
+  forall f, In f (ufinals (es1 ++ e :: es2)) ->
+    (look (uhistory s0 (es1 ++ [e])) f = look (uhistory s0 es1) f \/
+     (exists t, e = UPlant f t /\ look (uhistory s0 (es1 ++ [e])) f = VLink t) \/
+     (exists blocks k, e = UUpload f blocks Done k /\ look (uhistory s0 (es1 ++ [e])) f = VFile (concat blocks))) /\
+    uallowed s0 (es1 ++ e :: es2) f (look (uhistory s0 (es1 ++ e :: es2)) f).
+Proof.
+  intros P GP s0 es1 e es2 HI Hf Hfl Hg f Hin.
+  pose proof (Hg f Hin) as Hnt. split.
+  - destruct (uhistory_safe_gen P GP s0 es1 HI Hf Hfl) as (I1 & I2 & I3 & _). rewrite uhistory_snoc.
+    apply (uevent_frame P GP); try assumption.
+    intros X. apply Hnt. rewrite utmps_app. apply in_or_app. right.
+    change (e :: es2) with ([e] ++ es2). rewrite utmps_app. apply in_or_app. left. exact X.
+  - destruct (uhistory_safe_gen P GP s0 (es1 ++ e :: es2) HI Hf Hfl) as (_ & _ & _ & _ & I5). apply I5. exact Hnt.
+Qed.
+
+(* WITHOUT the guard: `x.partial` is uploaded completely (the call succeeds, the file is published); then `x` is uploaded --
+   (a) the source fails after one block: the error path removes `x.partial`, the published file is GONE (directory empty);
+   (b) the process is killed after the first write: `x.partial` holds a prefix of ANOTHER upload under a published final name
+       (here the empty prefix: what was written is still in the dead process's buffer), which no clause of `uallowed` allows.
+   Sequential, names only, no local actor.  Replayed on the code: oracle/upload-name-is-another-uploads-temporary. *)
+Definition ex_complete : list N := [67; 79; 77; 80; 76; 69; 84; 69]%N.        (* "COMPLETE" *)
+Theorem upload_name_is_temporary_refuted :
+  let xp := ex_final ++ putfile_tmp_ext in
+  let s0 := mk_st [] [] in
+  let up1 := UUpload xp [ex_complete] Done 99%nat in
+  let err := UUpload ex_final [[97; 97]]%N SrcError 99%nat in
+  let kill := UUpload ex_final [[97; 97]; [98; 98]]%N Done 3%nat in
+  Inv s0 /\ clean s0 /\
+  look (uhistory s0 [up1]) xp = VFile ex_complete /\ names (uhistory s0 [up1]) (xp ++ putfile_tmp_ext) = None /\
+  In xp (ufinals [up1; err]) /\ In xp (utmps [up1; err]) /\ ~ no_name_collision [up1; err] /\ ~ no_name_collision [up1; kill] /\
+  look (uhistory s0 [up1; err]) xp = VNone /\ look (uhistory s0 [up1; err]) ex_final = VNone /\
+  look (uhistory s0 [up1; kill]) xp = VFile [] /\
+  ~ uallowed s0 [up1; kill] xp (look (uhistory s0 [up1; kill]) xp).
+Proof.
+  cbv zeta.
+  assert (Hin1 : forall e, In (ex_final ++ putfile_tmp_ext) (ufinals [UUpload (ex_final ++ putfile_tmp_ext) [ex_complete] Done 99%nat; e]))
+    by (intros e; cbn; left; reflexivity).
+  assert (Hin2 : forall b oc k, In (ex_final ++ putfile_tmp_ext)
+            (utmps [UUpload (ex_final ++ putfile_tmp_ext) [ex_complete] Done 99%nat; UUpload ex_final b oc k]))
+    by (intros; cbn; right; left; reflexivity).
+  split; [split; intros p; intros; discriminate|]. split; [split; reflexivity|].
+  split; [vm_compute; reflexivity|]. split; [vm_compute; reflexivity|].
+  split; [apply Hin1|]. split; [apply Hin2|].
+  split; [intros H; exact (H _ (Hin1 _) (Hin2 _ _ _))|]. split; [intros H; exact (H _ (Hin1 _) (Hin2 _ _ _))|].
+  split; [vm_compute; reflexivity|]. split; [vm_compute; reflexivity|]. split; [vm_compute; reflexivity|].
+  assert (E : look (uhistory (mk_st [] []) [UUpload (ex_final ++ putfile_tmp_ext) [ex_complete] Done 99%nat;
+                                            UUpload ex_final [[97; 97]; [98; 98]]%N Done 3%nat]) (ex_final ++ putfile_tmp_ext) = VFile [])
+    by (vm_compute; reflexivity).
+  rewrite E. intros [H|[(t & _ & H)|(bl & k & Hin & H)]].
+  - vm_compute in H. discriminate.
+  - discriminate.
+  - destruct Hin as [Hin|[Hin|[]]].
+    + injection Hin as <- _. vm_compute in H. discriminate.
+    + injection Hin as Hx _. vm_compute in Hx. discriminate Hx.
+Qed.
+
+(* ... and a history inside the guard (non-vacuity of uhistory_final_names): ex_hist below uploads one name only *)
+
 (* recovery: whatever happened before (crashes that left `<name>.partial` behind, planted links), an upload that runs to
    completion publishes the complete file and leaves no temporary *)
-Theorem uhistory_recovers : forall s0 es final blocks,
-  Inv s0 -> failed s0 = false -> followed s0 = false ->
+Theorem uhistory_recovers : forall P, good_inv P -> forall s0 es final blocks,
+  P s0 -> failed s0 = false -> followed s0 = false ->
   names s0 (final ++ putfile_tmp_ext) <> Some D -> names s0 final <> Some D ->
   look (run (uhistory s0 es) (upload_ops final blocks Done)) final = VFile (concat blocks) /\
   names (run (uhistory s0 es) (upload_ops final blocks Done)) (final ++ putfile_tmp_ext) = None /\
   failed (run (uhistory s0 es) (upload_ops final blocks Done)) = false.
 Proof.
-  intros s0 es final blocks HI Hf Hfl Hnt Hnf.
-  destruct (uhistory_safe s0 es HI Hf Hfl) as (I1 & I2 & I3 & I4 & _).
+  intros P GP s0 es final blocks HI Hf Hfl Hnt Hnf.
+  destruct (uhistory_safe_gen P GP s0 es HI Hf Hfl) as (I1 & I2 & I3 & I4 & _).
+  destruct GP as (G1 & G2 & _ & _).
   apply upload_completes.
   - intros E. apply Hnf. apply (I4 _). exact E.
-  - apply Inv_wf. exact I1.
-  - apply Inv_unshared. exact I1.
+  - apply G1. exact I1.
+  - apply G2. exact I1.
   - split; assumption.
   - intros E. apply Hnt. apply (I4 _). exact E.
 Qed.
@@ -450,8 +749,20 @@ Proof.
     as (_ & Hb & _). exact Hb.
 Qed.
 
+(* the registry's temporary is the one name that must not be a hard link of another entry (weaker invariant InvT) *)
+Definition is_rtmp (basedir : str) (p : str) : Prop := p = registry_final basedir ++ registry_tmp_ext.
+
+Lemma renames_movable : forall o a b, In (a, b) (renames o) -> In a (movable o).
+Proof. intros o a b H. destruct o; cbn [renames] in H; try (destruct H; fail); destruct H as [H|[]]; injection H as <- _; cbn; auto. Qed.
+
+Lemma registry_ops_keepsT : forall basedir chunks o, In o (registry_ops basedir chunks) -> keepsT (is_rtmp basedir) o.
+Proof.
+  intros basedir chunks o Ho a b Hab _. apply renames_movable in Hab.
+  exact (proj1 (registry_ops_shape basedir chunks o Ho) a Hab).
+Qed.
+
 Definition rstate_ok (basedir : str) (s : st) : Prop :=
-  Inv s /\ clean s /\ no_link_at s (registry_final basedir ++ registry_tmp_ext) /\
+  InvT (is_rtmp basedir) s /\ clean s /\ no_link_at s (registry_final basedir ++ registry_tmp_ext) /\
   no_dir_at s (registry_final basedir ++ registry_tmp_ext) /\ no_dir_at s (registry_final basedir).
 
 Lemma rsession : forall basedir s chunks k f, rstate_ok basedir s ->
@@ -462,7 +773,8 @@ Lemma rsession : forall basedir s chunks k f, rstate_ok basedir s ->
    look (do_revent basedir s (RSave chunks k f)) (registry_final basedir) = VFile (concat chunks)).
 Proof.
   intros basedir s chunks k f (HI & Hcl & Hnl & Hnd & Hndf).
-  pose proof (Inv_wf _ HI) as Hwf. pose proof (Inv_unshared _ (registry_final basedir ++ registry_tmp_ext) HI) as Hun.
+  pose proof (InvT_wf _ _ HI) as Hwf.
+  pose proof (InvT_unshared (is_rtmp basedir) _ (registry_final basedir ++ registry_tmp_ext) eq_refl HI) as Hun.
   assert (Hne : registry_final basedir ++ registry_tmp_ext <> registry_final basedir) by (apply ext_neq; discriminate).
   pose proof (registry_atomic s basedir chunks k Hwf Hun Hcl Hnl Hnd Hndf) as (Ha & _ & Hd & _). cbv zeta in *.
   pose proof (registry_prefix_followed s basedir chunks k Hwf Hun Hcl Hnl Hnd Hndf) as Hfo.
@@ -473,7 +785,9 @@ Proof.
   { apply run_nolink; [|exact Hnl]. intros o Ho Hin. apply In_firstn in Ho.
     apply Hne. exact (proj2 (registry_ops_shape basedir chunks o Ho) _ Hin). }
   assert (Hprefix : rstate_ok basedir (reboot (run s (firstn k (registry_ops basedir chunks))))).
-  { split; [apply (run_inv _ _ HI)|]. split; [split; [reflexivity|exact Hfo]|]. split; [exact Hln|].
+  { split; [change (InvT (is_rtmp basedir) (run s (firstn k (registry_ops basedir chunks)))); apply run_invT; [|exact HI];
+            intros o Ho; apply In_firstn in Ho; exact (registry_ops_keepsT basedir chunks o Ho)|].
+    split; [split; [reflexivity|exact Hfo]|]. split; [exact Hln|].
     split; [intros E; apply Hnd; apply (Hds _); exact E|intros E; apply Hndf; apply (Hds _); exact E]. }
   destruct f; cbn [do_revent].
   - (* the k-th operation fails *)
@@ -482,7 +796,7 @@ Proof.
       assert (Hpo : plain o = true) by (apply Hp; eapply nth_error_In; eauto).
       split; [|split].
       * destruct Hprefix as (P1 & (_ & P2) & P3 & P4 & P5).
-        split; [apply step_fault_inv; exact P1|]. split; [split; [reflexivity|]|].
+        split; [apply (step_fault_invT (is_rtmp basedir)); exact P1|]. split; [split; [reflexivity|]|].
         { cbn [reboot followed]. rewrite step_fault_followed. exact Hfo. }
         split; [apply step_fault_nolink; exact Hln|].
         split; [intros X; apply P4; exact (proj1 (step_fault_dsame _ o _) X)
@@ -531,7 +845,7 @@ Proof.
     + assert (Hpt : p <> registry_final basedir ++ registry_tmp_ext) by (apply (Hp p t); apply in_or_app; right; left; reflexivity).
       cbn [do_revent]. destruct I1 as (K1 & (K2a & K2b) & K3 & K4 & K5).
       split.
-      * split; [apply plant_inv; exact K1|].
+      * split; [apply (plant_invT (is_rtmp basedir)); exact K1|].
         split; [split; unfold plant; destruct (names s1 p) as [[i|t'|]|]; assumption|].
         split; [|split; [intros X; apply K4; apply (plant_dsame s1 p t _); exact X
                         |intros X; apply K5; apply (plant_dsame s1 p t _); exact X]].
@@ -573,8 +887,8 @@ Theorem rhistory_recovers : forall basedir s0 es chunks, rstate_ok basedir s0 ->
   names (run (rhistory basedir s0 es) (registry_ops basedir chunks)) (registry_final basedir ++ registry_tmp_ext) = None.
 Proof.
   intros basedir s0 es chunks H0 Hp. destruct (rhistory_safe basedir s0 es H0 Hp) as ((HI & Hcl & Hnl & Hnd & Hndf) & _).
-  pose proof (registry_atomic _ basedir chunks (List.length (registry_ops basedir chunks)) (Inv_wf _ HI)
-                (Inv_unshared _ _ HI) Hcl Hnl Hnd Hndf) as (_ & _ & _ & He). cbv zeta in He. rewrite firstn_all in He.
+  pose proof (registry_atomic _ basedir chunks (List.length (registry_ops basedir chunks)) (InvT_wf _ _ HI)
+                (InvT_unshared (is_rtmp basedir) _ _ eq_refl HI) Hcl Hnl Hnd Hndf) as (_ & _ & _ & He). cbv zeta in He. rewrite firstn_all in He.
   destruct (He (le_n _)) as [H1 H2]. split; [|exact H2].
   unfold registry_load. rewrite registry_load_same_file. fold (registry_final basedir). rewrite H1. reflexivity.
 Qed.
@@ -620,6 +934,43 @@ Example ex_hist_runs :
 Proof.
   cbv zeta. split; [vm_compute; reflexivity|]. split; [vm_compute; reflexivity|]. split; [vm_compute; reflexivity|].
   apply mk_st_inv1.
+Qed.
+
+(* non-vacuity of the weaker invariant: two entries that are hard links of each other (neither is a temporary): InvT holds,
+   Inv does not; the history theorems apply to such a directory *)
+Lemma not_utmp : forall p, hd 0%N (rev p) <> hd 0%N (rev putfile_tmp_ext) -> ~ is_utmp p.
+Proof.
+  intros p H [f E]. apply H. rewrite E, rev_app_distr.
+  destruct (rev putfile_tmp_ext) eqn:R; [vm_compute in R; discriminate|reflexivity].
+Qed.
+
+Definition ex_hardlinks : st := mk_st [(ex_base ++ [47; 97]%N, F 0%nat); (ex_base ++ [47; 98]%N, F 0%nat)] [[111]%N].
+Example ex_hardlinks_ok :
+  InvT is_utmp ex_hardlinks /\ ~ Inv ex_hardlinks /\ failed ex_hardlinks = false /\ followed ex_hardlinks = false /\
+  look (uhistory ex_hardlinks ex_hist) (ex_base ++ [47; 97]%N) = VFile [111]%N /\
+  look (uhistory ex_hardlinks ex_hist) ex_final = VFile [100; 101]%N.
+Proof.
+  assert (Na : ~ is_utmp (ex_base ++ [47; 97]%N)) by (apply not_utmp; vm_compute; discriminate).
+  assert (Nb : ~ is_utmp (ex_base ++ [47; 98]%N)) by (apply not_utmp; vm_compute; discriminate).
+  split; [|split; [|split; [reflexivity|split; [reflexivity|split; vm_compute; reflexivity]]]].
+  - split.
+    + intros p i. unfold ex_hardlinks, mk_st. cbn [names next find fst snd].
+      destruct (str_eqb (ex_base ++ [47; 97]%N) p); [intros H; injection H as <-; cbn; lia|].
+      destruct (str_eqb (ex_base ++ [47; 98]%N) p); [intros H; injection H as <-; cbn; lia|discriminate].
+    + intros p q i Tp. unfold ex_hardlinks, mk_st. cbn [names find fst snd].
+      destruct (str_eqb (ex_base ++ [47; 97]%N) p) eqn:Ea; [apply str_eqb_eq in Ea; subst p; contradiction|].
+      destruct (str_eqb (ex_base ++ [47; 98]%N) p) eqn:Eb; [apply str_eqb_eq in Eb; subst p; contradiction|discriminate].
+  - intros [_ H]. assert (E : ex_base ++ [47; 97]%N = ex_base ++ [47; 98]%N) by (apply (H _ _ 0%nat); vm_compute; reflexivity).
+    vm_compute in E. discriminate.
+Qed.
+
+Example ex_hist_no_collision : no_name_collision ex_hist /\ In ex_final (ufinals ex_hist).
+Proof.
+  split; [|cbn; left; reflexivity].
+  intros f Hf Ht. cbn in Hf, Ht.
+  assert (Ef : f = ex_final) by (destruct Hf as [<-|[<-|[<-|[]]]]; reflexivity).
+  assert (Et : f = ex_final ++ putfile_tmp_ext) by (destruct Ht as [<-|[<-|[<-|[]]]]; reflexivity).
+  rewrite Ef in Et. exact (tmp_ext_neq ex_final (eq_sym Et)).
 Qed.
 
 (* ---------- the read paths that come from a directory listing ---------- *)
@@ -684,7 +1035,7 @@ Proof. vm_compute. reflexivity. Qed.
 Definition ex_rs0 : st := mk_st [(registry_final ex_base, F 0%nat)] [[111; 108; 100]%N].
 Example ex_rstate_ok : rstate_ok ex_base ex_rs0.
 Proof.
-  split; [apply mk_st_inv1|]. split; [split; reflexivity|].
+  split; [apply Inv_InvT; apply mk_st_inv1|]. split; [split; reflexivity|].
   split; [intros t H; vm_compute in H; discriminate|]. split; intros H; vm_compute in H; discriminate.
 Qed.
 
@@ -724,16 +1075,18 @@ Proof.
 Qed.
 
 (* WITH the guard: after any prefix nothing went through a symlink, nothing failed, only p changed *)
-Lemma write_guarded_safe : forall s p chunks k,
-  Inv s -> failed s = false -> followed s = false -> names s p <> Some D ->
+Lemma write_guarded_safe : forall (T : str -> Prop) s p chunks k, T p ->
+  InvT T s -> failed s = false -> followed s = false -> names s p <> Some D ->
   followed (run s (firstn k (file_write_ops true p chunks))) = false /\
   failed (run s (firstn k (file_write_ops true p chunks))) = false /\
-  Inv (run s (firstn k (file_write_ops true p chunks))) /\
+  InvT T (run s (firstn k (file_write_ops true p chunks))) /\
   dsame s (run s (firstn k (file_write_ops true p chunks))) /\
   (forall q, q <> p -> look (run s (firstn k (file_write_ops true p chunks))) q = look s q).
 Proof.
-  intros s p chunks k HI Hf Hfl Hnd.
-  assert (HI' : Inv (run s (firstn k (file_write_ops true p chunks)))) by (apply run_inv; exact HI).
+  intros T s p chunks k Tp HI Hf Hfl Hnd.
+  assert (HI' : InvT T (run s (firstn k (file_write_ops true p chunks)))).
+  { apply run_invT; [|exact HI]. intros o Ho a b Hab _. apply In_firstn in Ho. apply renames_movable in Hab.
+    exfalso. exact (write_ops_movable _ _ _ _ _ Ho Hab). }
   assert (Hds : dsame s (run s (firstn k (file_write_ops true p chunks)))).
   { apply run_dsame. intros o a Ho Ha. apply In_firstn in Ho. exfalso. exact (write_ops_movable _ _ _ _ _ Ho Ha). }
   assert (Eops : file_write_ops true p chunks = UnlinkIfLink p :: (Open p :: map (Write p) chunks ++ [Close p])) by reflexivity.
@@ -741,7 +1094,7 @@ Proof.
   destruct k as [|k];
     [cbn [firstn run fold_left]; split; [exact Hfl|split; [exact Hf|split; [exact HI|split; [apply dn_refl|reflexivity]]]]|].
   cbn [firstn] in *. rewrite run_cons in *.
-  destruct (unlink_if_link_facts s p (Inv_wf _ HI) (Inv_unshared _ _ HI) (conj Hf Hfl) Hnd) as (Hwf' & Hun' & Hcl' & Hnl' & Hnd' & Hlk).
+  destruct (unlink_if_link_facts s p (InvT_wf _ _ HI) (InvT_unshared T _ _ Tp HI) (conj Hf Hfl) Hnd) as (Hwf' & Hun' & Hcl' & Hnl' & Hnd' & Hlk).
   cbv zeta in *. rewrite write_ops_prefix_of_err in *. rewrite firstn_firstn in *.
   pose proof (err_prefix _ p chunks (Nat.min k (List.length chunks + 2)) Hwf' Hun' Hcl' Hnl' Hnd') as (Ha & Hb & Hc & _).
   cbv zeta in *. split; [exact Hb|]. split; [exact Hc|]. split; [exact HI'|]. split; [exact Hds|].
@@ -758,31 +1111,34 @@ Proof.
 Qed.
 
 (* the gatherer's two writes for an accepted incident name: contained PHYSICALLY if and only if both opens are guarded.
-   (On the pinned tree neither is: the second conjunct is the live one -- finding oracle/gatherer-follows-preexisting-symlink.) *)
+   Flag-keyed form (the flags are translated from save_incident / update_latest); props/C19.v applies the first conjunct to the
+   translated flags with eq_refl, so that it is the unconditional statement about the current source.  Both guards exist since
+   fix 34db49e (finding oracle/gatherer-follows-preexisting-symlink before it); the other two conjuncts say what a source
+   without one of them does. *)
 Theorem gatherer_symlinks :
   (gatherer_save_guarded && gatherer_latest_guarded = true ->
-   forall s q latest chunks ltext k, Inv s -> failed s = false -> followed s = false ->
+   forall s q latest chunks ltext k, InvT (fun x => x = q \/ x = latest) s -> failed s = false -> followed s = false ->
      names s q <> Some D -> names s latest <> Some D ->
      followed (run s (firstn k (gatherer_ops q latest chunks ltext))) = false) /\
   (gatherer_save_guarded = false ->
    forall s q latest t chunks ltext, failed s = false -> names s q = Some (L t) ->
      followed (run s (gatherer_ops q latest chunks ltext)) = true) /\
   (gatherer_latest_guarded = false ->
-   forall s q latest t chunks ltext, Inv s -> failed s = false -> followed s = false -> gatherer_save_guarded = true ->
+   forall s q latest t chunks ltext, InvT (fun x => x = q \/ x = latest) s -> failed s = false -> followed s = false -> gatherer_save_guarded = true ->
      names s q <> Some D -> q <> latest -> names s latest = Some (L t) ->
      followed (run s (gatherer_ops q latest chunks ltext)) = true).
 Proof.
   split; [|split].
   - intros Hg s q latest chunks ltext k HI Hf Hfl Hq Hl. apply andb_true_iff in Hg. destruct Hg as [G1 G2].
     unfold gatherer_ops. rewrite G1, G2. rewrite firstn_app, run_app.
-    destruct (write_guarded_safe s q chunks k HI Hf Hfl Hq) as (A1 & A2 & A3 & A4 & _).
+    destruct (write_guarded_safe _ s q chunks k (or_introl eq_refl) HI Hf Hfl Hq) as (A1 & A2 & A3 & A4 & _).
     assert (Hl' : names (run s (firstn k (file_write_ops true q chunks))) latest <> Some D).
     { intros E. apply Hl. apply (A4 _). exact E. }
-    apply (write_guarded_safe _ latest [ltext] _ A3 A2 A1 Hl').
+    apply (write_guarded_safe _ _ latest [ltext] _ (or_intror eq_refl) A3 A2 A1 Hl').
   - intros Hg s q latest t chunks ltext Hf E. unfold gatherer_ops. rewrite Hg, run_app.
     destruct (write_unguarded_follows s q t chunks Hf E) as [F1 F2]. rewrite run_failed by exact F2. exact F1.
   - intros Hg s q latest t chunks ltext HI Hf Hfl G1 Hq Hne E. unfold gatherer_ops. rewrite Hg, G1, run_app.
-    pose proof (write_guarded_safe s q chunks (List.length (file_write_ops true q chunks)) HI Hf Hfl Hq) as (A1 & A2 & _ & _ & A5).
+    pose proof (write_guarded_safe _ s q chunks (List.length (file_write_ops true q chunks)) (or_introl eq_refl) HI Hf Hfl Hq) as (A1 & A2 & _ & _ & A5).
     rewrite firstn_all in *.
     assert (El : names (run s (file_write_ops true q chunks)) latest = Some (L t)).
     { pose proof (A5 latest (not_eq_sym Hne)) as Hl. unfold look in Hl. rewrite E in Hl.
@@ -790,7 +1146,7 @@ Proof.
     apply (write_unguarded_follows _ latest t [ltext] A2 El).
 Qed.
 
-(* non-vacuity of the live branch: a savefile name that is a link out of the directory *)
+(* non-vacuity: a savefile name that is a link out of the directory *)
 Example gatherer_symlink_witness :
   let q := ex_final ++ gatherer_ext in
   let s := mk_st [(q, L [46; 46; 47; 118]%N)] [] in
@@ -798,7 +1154,159 @@ Example gatherer_symlink_witness :
   gatherer_path [47]%N ex_base [120]%N = Some q.
 Proof. cbv zeta. split; [reflexivity|]. split; vm_compute; reflexivity. Qed.
 
-(* the publisher reads through a link at the selected name unless it refuses links (on the pinned tree it does not) *)
+(* ---------- reads: what goes through a symbolic link ---------- *)
+Lemma rstep_names : forall s o, names (rstep s o) = names s.
+Proof.
+  intros s o. unfold rstep. destruct (failed s); [reflexivity|].
+  destruct o; (destruct (names s p) as [[i|t|]|]; reflexivity).
+Qed.
+
+Lemma rstep_is_link : forall s o p, is_link (rstep s o) p = is_link s p.
+Proof. intros. unfold is_link. rewrite rstep_names. reflexivity. Qed.
+
+Lemma rrun_cons : forall s o l, rrun s (o :: l) = rrun (rstep s o) l.
+Proof. reflexivity. Qed.
+
+Lemma rrun_names : forall ops s, names (rrun s ops) = names s.
+Proof. induction ops as [|o ops IH]; intros s; [reflexivity|]. rewrite rrun_cons, IH. apply rstep_names. Qed.
+
+(* the only read that can set `followed` is a BARE open of a name that is a symbolic link *)
+Definition safe_read (s : st) (o : rop) : Prop :=
+  match o with ROpen p => is_link s p = false | ROpenUnlessLink _ => True end.
+
+Lemma rstep_safe : forall s o, safe_read s o -> followed (rstep s o) = followed s.
+Proof.
+  intros s o H. unfold rstep. destruct (failed s); [reflexivity|].
+  destruct o; cbn [safe_read] in H.
+  - unfold is_link in H. destruct (names s p) as [[i|t|]|]; try reflexivity. discriminate.
+  - destruct (names s p) as [[i|t|]|]; reflexivity.
+Qed.
+
+Lemma rrun_safe : forall ops s, (forall o, In o ops -> safe_read s o) -> followed (rrun s ops) = followed s.
+Proof.
+  induction ops as [|o ops IH]; intros s H; [reflexivity|]. rewrite rrun_cons, IH.
+  - apply rstep_safe. apply H. left. reflexivity.
+  - intros o' Ho'. pose proof (H o' (or_intror Ho')) as G. destruct o'; cbn [safe_read] in *; [|exact I].
+    rewrite rstep_is_link. exact G.
+Qed.
+
+(* ... and it does: the lstat test in front of the open is NECESSARY *)
+Theorem read_link_follows : forall s p t, failed s = false -> names s p = Some (L t) ->
+  followed (rstep s (ROpen p)) = true /\ followed (rstep s (ROpenUnlessLink p)) = followed s.
+Proof. intros s p t Hf E. unfold rstep. rewrite Hf, E. split; reflexivity. Qed.
+
+Lemma rrun_followed_mono : forall ops s, followed s = true -> followed (rrun s ops) = true.
+Proof.
+  induction ops as [|o ops IH]; intros s H; [exact H|]. rewrite rrun_cons. apply IH.
+  unfold rstep. destruct (failed s); [exact H|].
+  destruct o; (destruct (names s p) as [[i|t|]|]; cbn [followed mark_followed fail]; try exact H; reflexivity).
+Qed.
+
+(* list_incident_names with the islink test: nothing that is reported is a symbolic link (and everything reported is
+   reported by the lexical selection, to which listing_contained applies) *)
+Theorem listing_reported_not_links : listing_link_skipped = true ->
+  forall s base listing since n p, In (n, p) (list_incidents_at s base listing since) ->
+    is_link s p = false /\ In (n, p) (list_incidents base listing since).
+Proof.
+  intros Hg s base listing since n p Hin. unfold list_incidents_at in Hin. apply filter_In in Hin.
+  destruct Hin as [Hin Hf]. rewrite Hg in Hf. cbn [andb snd] in Hf. split; [|exact Hin].
+  destruct (is_link s p); [discriminate|reflexivity].
+Qed.
+
+(* ... so EVERY sequence of reads of reported files (remote_list_incidents: all of them in listing order; catch_up: one per
+   basename, sorted) goes through no symbolic link *)
+Theorem listing_reads_contained : listing_link_skipped = true ->
+  forall s base listing since ops, followed s = false ->
+    (forall o, In o ops -> exists n p, o = ROpen p /\ In (n, p) (list_incidents_at s base listing since)) ->
+    followed (rrun s ops) = false.
+Proof.
+  intros Hg s base listing since ops Hfl H. rewrite rrun_safe; [exact Hfl|].
+  intros o Ho. destruct (H o Ho) as (n & p & -> & Hin). cbn [safe_read].
+  apply (listing_reported_not_links Hg s base listing since n p Hin).
+Qed.
+
+(* lexical AND physical: what is reported on a directory state is an entry of the log directory itself that carries the
+   prefix and is not a symbolic link *)
+Theorem listing_contained_at : listing_link_skipped = true ->
+  forall s base listing since n p, wf_base base -> (forall fn, In fn listing -> goodb fn = true) ->
+    In (n, p) (list_incidents_at s base listing since) ->
+    inside base p /\ is_link s p = false /\
+    exists fn, In fn listing /\ p = base ++ sep :: fn /\ prefixb listing_prefix fn = true.
+Proof.
+  intros Hg s base listing since n p Hb Hl Hin.
+  destruct (listing_reported_not_links Hg s base listing since n p Hin) as [H1 H2].
+  destruct (listing_contained base listing since n p Hb Hl H2) as [H3 H4]. auto.
+Qed.
+
+(* non-vacuity: a log directory with a regular incident and a symlinked one (to a file outside): only the regular one is
+   reported, the reads stay un-followed; a bare open of the link would not *)
+Example listing_symlink_example :
+  let evil := [105; 110; 99; 105; 100; 101; 110; 116; 45; 101; 46; 102; 108; 111; 103]%N in          (* incident-e.flog *)
+  let good := [105; 110; 99; 105; 100; 101; 110; 116; 45; 49; 46; 102; 108; 111; 103]%N in           (* incident-1.flog *)
+  let s := mk_st [(ex_base ++ [47]%N ++ evil, L [46; 46; 47; 111; 117; 116]%N); (ex_base ++ [47]%N ++ good, F 0%nat)] [[120]%N] in
+  map snd (list_incidents ex_base [evil; good] []) = [ex_base ++ [47]%N ++ evil; ex_base ++ [47]%N ++ good] /\
+  map snd (list_incidents_at s ex_base [evil; good] []) = [ex_base ++ [47]%N ++ good] /\
+  followed (rrun s (listing_read_ops s ex_base [evil; good] [])) = false /\
+  followed (rrun s (map (fun np => ROpen (snd np)) (list_incidents ex_base [evil; good] []))) = true /\
+  followed (rrun s (connect_read_ops ex_base)) = false /\
+  followed (rrun (plant s (join ex_base gatherer_latest) [46; 46; 47; 111]%N) [ROpen (join ex_base gatherer_latest)]) = true /\
+  followed (rrun (plant s (join ex_base gatherer_latest) [46; 46; 47; 111]%N) (connect_read_ops ex_base)) = false.
+Proof. cbv zeta. repeat (split; [vm_compute; reflexivity|]). vm_compute. reflexivity. Qed.
+
+Lemma listing_read_ops_reported : forall s base listing since o, In o (listing_read_ops s base listing since) ->
+  exists n p, o = ROpen p /\ In (n, p) (list_incidents_at s base listing since).
+Proof.
+  intros s base listing since o Ho. unfold listing_read_ops in Ho. apply in_map_iff in Ho.
+  destruct Ho as ([n p] & <- & Hin). exists n, p. split; [reflexivity|exact Hin].
+Qed.
+
+(* WITHOUT the test (the code before the fix) every selected entry is reported, links included, and the first one that is a
+   link is read through *)
+Theorem listing_unguarded_follows : listing_link_skipped = false ->
+  forall s base listing since,
+    list_incidents_at s base listing since = list_incidents base listing since /\
+    (forall n p t rest, list_incidents base listing since = (n, p) :: rest -> failed s = false -> names s p = Some (L t) ->
+       followed (rrun s (listing_read_ops s base listing since)) = true).
+Proof.
+  intros Hg s base listing since.
+  assert (E : list_incidents_at s base listing since = list_incidents base listing since).
+  { unfold list_incidents_at. rewrite Hg.
+    assert (G : forall l : list (str * str), filter (fun np => negb (false && is_link s (snd np))) l = l).
+    { intros l. induction l as [|x l IH]; [reflexivity|]. cbn [filter]. rewrite IH. reflexivity. }
+    apply G. }
+  split; [exact E|].
+  intros n p t rest Hl Hf Hn. unfold listing_read_ops. rewrite E, Hl. cbn [map snd]. rewrite rrun_cons.
+  apply rrun_followed_mono. apply (read_link_follows s p t Hf Hn).
+Qed.
+
+(* IncidentObserver.connect: the one file it reads is `latest` in its own directory; behind the lstat test it is not read
+   through a link, without the test it is *)
+Theorem connect_read_contained : forall base o, wf_base base -> In o (connect_read_ops base) ->
+  exists p, (o = ROpen p \/ o = ROpenUnlessLink p) /\ inside base p.
+Proof.
+  intros base o Hb Ho. unfold connect_read_ops in Ho. destruct Ho as [<-|[]].
+  assert (Hg : goodb gatherer_latest = true) by reflexivity.
+  exists (join base gatherer_latest). split.
+  - unfold guarded_read. destruct gatherer_state_read_guarded; [right|left]; reflexivity.
+  - rewrite (join_wf_base base _ Hb Hg). exists gatherer_latest. auto.
+Qed.
+
+Theorem connect_read_safe : gatherer_state_read_guarded = true ->
+  forall s base, followed (rrun s (connect_read_ops base)) = followed s.
+Proof.
+  intros Hg s base. apply rrun_safe. intros o Ho. unfold connect_read_ops in Ho. rewrite Hg in Ho.
+  destruct Ho as [<-|[]]. exact I.
+Qed.
+
+Theorem connect_read_unguarded_follows : gatherer_state_read_guarded = false ->
+  forall s base t, failed s = false -> names s (join base gatherer_latest) = Some (L t) ->
+    followed (rrun s (connect_read_ops base)) = true.
+Proof.
+  intros Hg s base t Hf E. unfold connect_read_ops. rewrite Hg. cbn [guarded_read]. rewrite rrun_cons.
+  apply rrun_followed_mono. apply (read_link_follows s _ t Hf E).
+Qed.
+
+(* remote_get_incident: the selected file is opened behind `if os.path.islink(fn): raise KeyError`, or bare *)
 Theorem publisher_symlinks :
   (publisher_link_refused = true -> forall s cwd base name, publisher_reads_through_link s cwd base name = false) /\
   (publisher_link_refused = false ->
@@ -806,11 +1314,21 @@ Theorem publisher_symlinks :
      names s p = Some (L t) -> publisher_reads_through_link s cwd base name = true).
 Proof.
   split.
-  - intros Hg s cwd base name. unfold publisher_reads_through_link. rewrite Hg.
-    destruct (publisher_paths cwd base name) as [paths|]; [|reflexivity].
-    destruct (publisher_opened s paths); reflexivity.
-  - intros Hg s cwd base name paths p t Hp Ho E. unfold publisher_reads_through_link. rewrite Hp, Ho, Hg.
-    unfold is_link. rewrite E. reflexivity.
+  - intros Hg s cwd base name. unfold publisher_reads_through_link. rewrite rrun_safe; [reflexivity|].
+    intros o Ho. unfold publisher_read_ops in Ho. rewrite Hg in Ho.
+    destruct (publisher_paths cwd base name) as [paths|]; [|destruct Ho].
+    destruct (publisher_opened s paths); [|destruct Ho]. destruct Ho as [<-|[]]. exact I.
+  - intros Hg s cwd base name paths p t Hp Ho E. unfold publisher_reads_through_link, publisher_read_ops.
+    rewrite Hp, Ho, Hg. cbn [guarded_read]. rewrite rrun_cons. apply rrun_followed_mono.
+    apply (read_link_follows (calm s) p t eq_refl E).
+Qed.
+
+Lemma publisher_read_ops_guarded : publisher_link_refused = true ->
+  forall s cwd base name o, In o (publisher_read_ops s cwd base name) -> exists p, o = ROpenUnlessLink p.
+Proof.
+  intros Hg s cwd base name o Ho. unfold publisher_read_ops in Ho. rewrite Hg in Ho.
+  destruct (publisher_paths cwd base name) as [paths|]; [|destruct Ho].
+  destruct (publisher_opened s paths) as [p|]; [|destruct Ho]. destruct Ho as [<-|[]]. exists p. reflexivity.
 Qed.
 
 Example publisher_symlink_witness :
@@ -835,31 +1353,6 @@ Proof.
       rewrite upd_other by (intros ->; apply Hq; left; reflexivity); reflexivity.
 Qed.
 
-(* every operation of an upload is one of these seven *)
-Lemma upload_ops_forall : forall (P : op -> Prop) final blocks oc,
-  P (UnlinkIfLink (final ++ putfile_tmp_ext)) -> P (Open (final ++ putfile_tmp_ext)) ->
-  (forall b, P (Write (final ++ putfile_tmp_ext) b)) -> P (Close (final ++ putfile_tmp_ext)) ->
-  P (RenameElseUnlink (final ++ putfile_tmp_ext) final (final ++ putfile_tmp_ext)) -> P (Chmod final) ->
-  P (Unlink (final ++ putfile_tmp_ext)) ->
-  forall o, In o (upload_ops final blocks oc) -> P o.
-Proof.
-  intros P final blocks oc P1 P2 P3 P4 P5 P6 P7 o Ho.
-  assert (G : forall tl, (forall o', In o' tl -> P o') ->
-              In o (UnlinkIfLink (final ++ putfile_tmp_ext) :: Open (final ++ putfile_tmp_ext) ::
-                    map (Write (final ++ putfile_tmp_ext)) blocks ++ tl) -> P o).
-  { intros tl Htl Hin. destruct Hin as [<-|[<-|Hin]]; [exact P1|exact P2|].
-    apply in_app_or in Hin. destruct Hin as [Hin|Hin].
-    - apply in_map_iff in Hin. destruct Hin as (b & <- & _). apply P3.
-    - apply Htl. exact Hin. }
-  destruct oc.
-  - rewrite upload_ops_done in Ho. unfold core_ops in Ho. apply (G _) in Ho; [exact Ho|].
-    intros o' Ho'. cbn in Ho'. destruct Ho' as [<-|[<-|[<-|[]]]]; assumption.
-  - rewrite upload_ops_err in Ho. unfold err_ops in Ho. apply (G _) in Ho; [exact Ho|].
-    intros o' Ho'. cbn in Ho'. destruct Ho' as [<-|[<-|[]]]; assumption.
-  - rewrite upload_ops_badblock, upload_ops_err in Ho. unfold err_ops in Ho. apply (G _) in Ho; [exact Ho|].
-    intros o' Ho'. cbn in Ho'. destruct Ho' as [<-|[<-|[]]]; assumption.
-Qed.
-
 Lemma upload_ops_fault_removed : forall final blocks oc o q,
   In o (upload_ops final blocks oc) -> In q (fault_removed o) -> q = final ++ putfile_tmp_ext.
 Proof.
@@ -870,35 +1363,36 @@ Qed.
 
 (* whichever system call of an upload fails (any k, any ending of the block stream, any initial directory): the final name
    still shows its old entry or the complete file, nothing went through a link, no other entry changed *)
-Theorem upload_fault_atomic : forall s0 final blocks oc k,
-  Inv s0 -> failed s0 = false -> followed s0 = false ->
+Theorem upload_fault_atomic : forall P, good_inv P -> forall s0 final blocks oc k,
+  P s0 -> failed s0 = false -> followed s0 = false ->
   followed (upload_fault k s0 final blocks oc) = false /\
   (forall q, q <> final ++ putfile_tmp_ext -> q <> final -> look (upload_fault k s0 final blocks oc) q = look s0 q) /\
   (look (upload_fault k s0 final blocks oc) final = look s0 final \/
    (oc = Done /\ look (upload_fault k s0 final blocks oc) final = VFile (concat blocks))).
 Proof.
-  intros s0 final blocks oc k HI Hf Hfl.
+  intros P (G1 & G2 & _ & _) s0 final blocks oc k HI Hf Hfl.
+  pose proof (G1 _ HI) as Hwf. pose proof (G2 _ final HI) as Hun.
   assert (Hne : final <> final ++ putfile_tmp_ext) by (apply not_eq_sym, tmp_ext_neq).
   assert (Hwrite : forall bl,
             followed (run s0 (upload_ops final bl BadBlock)) = false /\
             (forall q, q <> final ++ putfile_tmp_ext -> q <> final -> look (run s0 (upload_ops final bl BadBlock)) q = look s0 q) /\
             (look (run s0 (upload_ops final bl BadBlock)) final = look s0 final \/
              (oc = Done /\ look (run s0 (upload_ops final bl BadBlock)) final = VFile (concat blocks)))).
-  { intros bl. destruct (usession s0 final bl BadBlock (List.length (upload_ops final bl BadBlock)) HI Hf Hfl) as (_ & _ & A & B & C).
+  { intros bl. destruct (usession_gen s0 final bl BadBlock (List.length (upload_ops final bl BadBlock)) Hwf Hun Hf Hfl) as (_ & A & B & C).
     rewrite firstn_all in *. split; [exact A|]. split; [exact B|]. left. destruct C as [C|[C _]]; [exact C|discriminate]. }
   assert (Hfault : followed (run_fault k s0 (upload_ops final blocks oc)) = false /\
             (forall q, q <> final ++ putfile_tmp_ext -> q <> final -> look (run_fault k s0 (upload_ops final blocks oc)) q = look s0 q) /\
             (look (run_fault k s0 (upload_ops final blocks oc)) final = look s0 final \/
              (oc = Done /\ look (run_fault k s0 (upload_ops final blocks oc)) final = VFile (concat blocks)))).
   { unfold run_fault. destruct (nth_error (upload_ops final blocks oc) k) as [o|] eqn:E.
-    - destruct (usession s0 final blocks oc k HI Hf Hfl) as (_ & _ & A & B & C).
+    - destruct (usession_gen s0 final blocks oc k Hwf Hun Hf Hfl) as (_ & A & B & C).
       assert (Ho : In o (upload_ops final blocks oc)) by (eapply nth_error_In; eauto).
       assert (Hrm : forall q, q <> final ++ putfile_tmp_ext -> ~ In q (fault_removed o)).
       { intros q Hq Hin. apply Hq. exact (upload_ops_fault_removed final blocks oc o q Ho Hin). }
       split; [rewrite step_fault_followed; exact A|]. split.
       + intros q Hq Hq2. rewrite step_fault_look by (apply Hrm; exact Hq). apply B; assumption.
       + rewrite step_fault_look by (apply Hrm; exact Hne). exact C.
-    - destruct (usession s0 final blocks oc (List.length (upload_ops final blocks oc)) HI Hf Hfl) as (_ & _ & A & B & C).
+    - destruct (usession_gen s0 final blocks oc (List.length (upload_ops final blocks oc)) Hwf Hun Hf Hfl) as (_ & A & B & C).
       rewrite firstn_all in *. auto. }
   unfold upload_fault. destruct (nth_error (upload_ops final blocks oc) k) as [[]|]; try exact Hfault. apply Hwrite.
 Qed.
